@@ -208,3 +208,23 @@ func vPathKeyCollision(sw *spec.Swagger) bool {
 	}
 	return false
 }
+
+func init() { vRegister("VerifC07Mime", VerifC07Mime) }
+
+// C07: the serializer chosen for a media type does not depend on the iteration order of the table of patterns
+func VerifC07Mime() {
+	prefix := []string{"application/", "text/"}[vChoice("prefix", 2)]
+	tail := vBytes("tail", vParam("tail"))
+	for i := 0; i < len(tail); i++ {
+		c := tail[i]
+		vAssume(vOr(vAnd(c >= 'a', c <= 'z'), vOr(c == '+', c == '-')))
+	}
+	tn := prefix + tail
+	n1, ok1 := wellKnownMime(tn)
+	k := vChoice("site.rotation", 1)
+	vMapOrderSite(k)
+	n2, ok2 := wellKnownMime(tn)
+	vMapOrderSite(-1)
+	vCover("looked-up")
+	vAssert(ok1 == ok2 && n1 == n2, "the serializer picked for a media type depends on map iteration order")
+}
